@@ -987,12 +987,13 @@ class Interp:
                 v = StrCat([as_strcat(vals[0]), as_strcat(vals[1])])
             if v is None and isinstance(node, ast.BinOp) and isinstance(node.op, ast.Add) and len(vals) == 2 \
                     and getattr(self.hooks, 'symbolic_strings', False) \
-                    and any(isinstance(x, K) and isinstance(x.v, str) for x in vals) \
-                    and any(isinstance(x, Sym) for x in vals):
+                    and any((isinstance(x, K) and isinstance(x.v, str)) or isinstance(x, StrCat) for x in vals) \
+                    and any(isinstance(x, Sym) for x in vals) \
+                    and all(isinstance(x, (Sym, StrCat)) or (isinstance(x, K) and isinstance(x.v, str)) for x in vals):
                 # opt-in: an unknown value concatenated with a constant string is a string
                 v = StrCat([x if isinstance(x, (K, StrCat)) else x for x in vals])
             if v is None and isinstance(node, ast.Subscript) and len(vals) >= 1 and isinstance(vals[0], StrCat):
-                v = self._strcat_subscript(node, vals[0])
+                v = self._strcat_subscript(node, vals[0], vals[1:])
             if v is None and isinstance(node, ast.JoinedStr) and any(isinstance(x, StrCat) for x in vals) \
                     and all(isinstance(ch, ast.Constant) or (isinstance(ch, ast.FormattedValue) and ch.conversion == -1
                                                              and ch.format_spec is None) for ch in node.values):
@@ -1026,9 +1027,29 @@ class Interp:
         return out
 
     @staticmethod
-    def _strcat_subscript(node: ast.Subscript, sc: 'StrCat'):
-        """s[-1], s[0], s[:-1], s[1:] of a text that ends / starts with a known character"""
+    def _strcat_subscript(node: ast.Subscript, sc: 'StrCat', index_vals=()):
+        """s[-1], s[0], s[:-1], s[1:] of a text that ends / starts with a known character; s[len(p):] / s[:len(p)]
+        where the parts of p are the leading parts of s"""
         sl = node.slice
+
+        def len_of_prefix(v):
+            # v is the value of `len(<text whose parts are the first parts of sc>)`: the number of those parts
+            if isinstance(v, Sym) and v.origin and v.origin[0] == 'op' and v.origin[1] == 'Slice' and len(v.origin[2]) == 1:
+                v = v.origin[2][0]
+            if isinstance(v, Sym) and v.origin and v.origin[0] == 'call' and str(v.origin[1]).endswith('len') \
+                    and len(v.origin[2]) == 1:
+                a = v.origin[2][0]
+                parts = a.parts if isinstance(a, StrCat) else ([] if isinstance(a, K) and a.v == '' else None)
+                if parts is not None and len(parts) <= len(sc.parts) and all(x is y for x, y in zip(parts, sc.parts)):
+                    return len(parts)
+            return None
+
+        if isinstance(sl, ast.Slice) and sl.step is None and len(index_vals) == 1 \
+                and (sl.lower is None) != (sl.upper is None):
+            k = len_of_prefix(index_vals[0])
+            if k is not None:
+                rest = sc.parts[k:] if sl.upper is None else sc.parts[:k]
+                return StrCat(list(rest)) if rest else K('')
 
         def const_int(n):
             if isinstance(n, ast.Constant) and isinstance(n.value, int):
@@ -1831,14 +1852,26 @@ class Interp:
                     else:
                         v_ = t.v.lstrip(chars) if left else t.v.rstrip(chars)
                     if v_:
-                        out.append(([K(v_)] + rest if left else rest + [K(v_)], s1))
+                        kept = t if v_ == t.v else K(v_)
+                        out.append(([kept] + rest if left else rest + [kept], s1))
                     else:
                         work.append((rest, s1))
                     continue
                 if chars is not None:
-                    # stripping given characters off an unknown part: only decided when the part is known empty
+                    # stripping given characters off an unknown part: decided when the part is known empty, or is
+                    # known not to contain any of them (then it stops the stripping unless it is empty)
                     if self._emptiness_facts(s1).get(id(t)) is True:
                         work.append((rest, s1))
+                        continue
+                    if set(chars) <= set(getattr(t, 'excludes', '')):
+                        if not rest or self._emptiness_facts(s1).get(id(t)) is False:
+                            out.append((ps, s1))
+                            continue
+                        for ne, s2 in self._strcat_nonempty(StrCat([t]), s1, node):
+                            if ne:
+                                out.append((list(ps), s2))
+                            else:
+                                work.append((list(rest), s2))
                         continue
                     return None
                 for blank, s2 in self._fork_blank(t, s1, node):
